@@ -99,7 +99,7 @@ func nodeVia(v any, route int) dom.Node {
 // keys are arbitrary strings for Equals: dots, blanks and the empty key are ordinary member names (a trailing [n] is not: the builder reads it as a list index)
 var c05OddKeys = []string{"a", "a.b", "b", "", "x.y.z", "app.kubernetes.io/name", "a b", "a.b.c",
 	// names that merely look like a list position: ordinary member names
-	"tags[]", "offset[-1]", "delta[+2]", "x[y]", "[default]", "n[1"}
+	"tags[]", "offset[-1]", "delta[+2]", "x[y]", "[default]", "n[1", "disk[0]size", "a[b][1]x"}
 
 func c05Eq(a, b any) Case { return c05EqVia(a, b, 0, 0) }
 
